@@ -99,9 +99,28 @@ pub fn convert(kind: &str, b: &[u8]) -> Option<String> {
         "iriref" => {
             let Ok(s) = std::str::from_utf8(b) else { return Some("invalid".into()) };
             let Ok(v) = IriRef::new(s) else { return Some("invalid".into()) };
+            // hidden state: the same allocation holding another text of the same length afterwards
+            // must be judged on its own (a cache keyed on address and length would not)
+            let stale = {
+                let bytes = b.to_vec();
+                let n = bytes.len();
+                let mut bad = false;
+                if n >= 2 && bytes[n - 2].is_ascii_alphanumeric() && bytes[n - 1].is_ascii_alphanumeric() {
+                    if let Ok(o) = IriRefBuf::from_vec(bytes) {
+                        let _ = (o.as_uri_ref().is_some(), o.as_uri().is_some(), o.as_iri().is_some());
+                        let mut raw = o.into_bytes();
+                        raw[n - 2] = 0xC3;
+                        raw[n - 1] = 0xA9;
+                        if let Ok(o2) = IriRefBuf::from_vec(raw) {
+                            if o2.as_uri_ref().is_some() || o2.as_uri().is_some() { bad = true }
+                        }
+                    }
+                }
+                bad
+            };
             out.push(("as_iri", optb(v.as_iri().map(|x| x.as_bytes()), b)));
             out.push(("as_uri", optb(v.as_uri().map(|x| x.as_bytes()), b)));
-            out.push(("as_uri_ref", optb(v.as_uri_ref().map(|x| x.as_bytes()), b)));
+            out.push(("as_uri_ref", if stale { "STALE-STATE" } else { optb(v.as_uri_ref().map(|x| x.as_bytes()), b) }));
             out.push(("try_from_iri", resb(<&Iri>::try_from(v).map(|x| x.as_bytes().to_vec()).map_err(|e| e.0.as_bytes().to_vec()), b)));
             out.push(("try_from_uri", resb(<&Uri>::try_from(v).map(|x| x.as_bytes().to_vec()).map_err(|e| e.0.as_bytes().to_vec()), b)));
             out.push(("try_from_uri_ref", resb(<&UriRef>::try_from(v).map(|x| x.as_bytes().to_vec()).map_err(|e| e.0.as_bytes().to_vec()), b)));
